@@ -70,6 +70,11 @@ NoInv == "ZKFIX_NOINV" \in DOMAIN IOEnv
 \* a plausible wrong design ("make before break": the joins of a listing are delivered before its
 \* leaves), also only a generator of regression histories
 JoinsFirst == "ZKFIX_JBL" \in DOMAIN IOEnv
+\* another plausible wrong design ("nothing to report while no member is announced": _data_changed(None)
+\* queues the empty listing only when _members is non-empty, otherwise it just resets _nodes), also only a
+\* generator of regression histories: it loses the deletion of the path when that falls between the reads
+\* of the first members of a listing (_members is filled only after the last read of a batch)
+LazyEmpty == "ZKFIX_LZ" \in DOMAIN IOEnv
 
 VARIABLES parent, pinc, kids, dataW, childW,   \* server
           c,                                   \* client (record, see Init)
@@ -154,7 +159,8 @@ DataChangedStat(s, g, inc) ==
 \* _data_changed(None, None)
 DataChangedNone(s, g) ==
   LET s1 == [s EXCEPT !.watching = FALSE, !.gen = IF FixDW /\ ~NoInv THEN 0 ELSE @] IN
-  IF FixPD THEN GDRelease(OnSetChanged(s1, {}), g)
+  IF FixPD /\ LazyEmpty /\ s1.members = <<>> THEN GDRelease([s1 EXCEPT !.nodes = {}], g)
+  ELSE IF FixPD THEN GDRelease(OnSetChanged(s1, {}), g)
   ELSE GDRelease(SendAllRemoved(s1), g)
 
 \* response to get(path, watcher): ver = incarnation (0: NoNodeError)
